@@ -35,6 +35,10 @@ def body_statements(b, strlen, rich=False):
         b.expr_stmt(b.call(b.member(b.index(v('bal'), v('c')), 'div'), [v('c'), b.string('division by zero'), v('d')])),
         b.expr_stmt(b.call(b.member(v('a'), 'mul'), [])),
         b.expr_stmt(b.call(b.member(b.call(b.member(v('a'), 'add'), [v('c')]), 'sub'), [v('d'), b.string('nested')])),
+        # the success block of a `try` WITHOUT a returns clause (the parser hangs it on the call as a call block), and a bare `catch { }`
+        b.try_(b.call_block(b.call(b.member(b.this(), 'g'), []), b.block([b.expr_stmt(b.call(b.member(v('a'), 'mul'), [v('c')])),
+                                                                       b.expr_stmt(b.call(v('require'), [v('c'), b.string('in the success block of a try')]))])),
+               None, [b.catch_simple(None, b.block([b.expr_stmt(b.call(b.member(v('a'), 'div'), [v('d')]))]))]),
     ] + [
         # a call site as the left and as the right operand of EVERY binary operator and as the operand of every prefix operator: wherever an
         # expression can stand, a call site in it counts
